@@ -1,5 +1,6 @@
 import PokerVerif.Drv.SMDrv
 import PokerVerif.Drv.TBDrv
+import PokerVerif.Drv.OGMDrv
 /-! Correspondence driver: reads a trace on stdin, replays it through the models, prints verdict lines. -/
 open Drv
 
@@ -7,6 +8,7 @@ structure DrvState where
   lineNo : Nat := 0
   sm : SMDrv := {}
   tb : TBDrv := {}
+  ogm : OGMDrv := {}
   bad : Nat := 0
 
 partial def loop (h : IO.FS.Stream) (out : IO.FS.Stream) (s : DrvState) : IO DrvState := do
@@ -25,6 +27,10 @@ partial def loop (h : IO.FS.Stream) (out : IO.FS.Stream) (s : DrvState) : IO Drv
     let (tb', outs) := tbLine s.tb n rest
     for o in outs do out.putStrLn o
     loop h out { s with lineNo := n, tb := tb' }
+  | "ogm" :: rest =>
+    let (o', outs) := ogmLine s.ogm n rest
+    for o in outs do out.putStrLn o
+    loop h out { s with lineNo := n, ogm := o' }
   | _ =>
     out.putStrLn s!"BADLINE {n} unknown-layer"
     loop h out { s with lineNo := n, bad := s.bad + 1 }
@@ -35,4 +41,5 @@ def main : IO Unit := do
   let s ← loop stdin stdout {}
   for l in s.sm.summary do stdout.putStrLn l
   for l in s.tb.summary do stdout.putStrLn l
+  for l in s.ogm.summary do stdout.putStrLn l
   stdout.putStrLn s!"DONE lines={s.lineNo}"
